@@ -446,6 +446,20 @@ fn huge_binary_strategy() -> impl Strategy<Value = Forward> {
 fn run(ctx: &Ctx) {
     let n = ctx.share(ctx.tier.pick(60_000, 2_000_000));
     ctx.run_cases("forward", n, forward_strategy(), check_forward);
+    // BTOR2 constants from candidate strings: whatever the validating constructors accept must
+    // round-trip.
+    let n = ctx.share(ctx.tier.pick(16_000, 320_000));
+    let strat = proptest::collection::vec(crate::gen::bline_candidate_const_strategy(), 1..4).prop_map(|lines| Forward {
+        spec: Spec {
+            parser: ParserId::Btor2,
+            lit: 0,
+            flag: false,
+        },
+        doc: Doc::Btor(lines),
+        feed: None,
+        writer: None,
+    });
+    ctx.run_cases("forward-constructor-candidates", n, strat, check_forward);
     let n = ctx.share(ctx.tier.pick(4_000, 100_000));
     ctx.run_cases("forward-huge-binary", n, huge_binary_strategy(), check_forward);
     let n = ctx.share(ctx.tier.pick(40_000, 1_200_000));
@@ -473,7 +487,7 @@ fn run(ctx: &Ctx) {
 
 fn replay(oracle: &str, v: &Value) -> Option<CheckResult> {
     match oracle {
-        "forward" | "forward-huge-binary" => Some(match replay_from_file::<Forward>(v) {
+        "forward" | "forward-huge-binary" | "forward-constructor-candidates" => Some(match replay_from_file::<Forward>(v) {
             Ok(c) => check_forward(&c, &mut Obs::default()),
             Err(e) => Err(Failure::new("C03:decode", e)),
         }),
